@@ -191,7 +191,7 @@ def make_target(rnd, D, d):
     return D.BayesRule([D.Uniform(mu - 3.0, mu + 3.0), D.Normal(mu, numpy.ones((d, 1)))]), k, d
 
 
-def one_run(cfg, wd, tag, perturb=None, backend="h5", diagnostic=False, progressbar=False, visual=None, clock=None, proposals=None, seed=None):
+def one_run(cfg, wd, tag, perturb=None, backend="h5", diagnostic=False, progressbar=False, visual=None, clock=None, proposals=None, seed=None, mass_history=None):
     import hmclab
     S, M, D = hmclab.Samplers, hmclab.MassMatrices, hmclab.Distributions
     if perturb:
@@ -208,6 +208,16 @@ def one_run(cfg, wd, tag, perturb=None, backend="h5", diagnostic=False, progress
         mk = cfg["mass"]
         mass = {"unit": lambda: M.Unit(d), "diagonal": lambda: M.Diagonal(numpy.arange(1, d + 1, dtype=float)),
                 "full": lambda: M.Full(numpy.eye(d) + 0.25 * numpy.ones((d, d))), "none": lambda: None}[mk]()
+        if mass is not None and mass_history == "own-generator":
+            # the same matrix, built with a generator of its own
+            g = numpy.random.default_rng(4242)
+            mass = {"unit": lambda: M.Unit(d, g), "diagonal": lambda: M.Diagonal(numpy.arange(1, d + 1, dtype=float), g),
+                    "full": lambda: M.Full(numpy.eye(d) + 0.25 * numpy.ones((d, d)), g) if "rng" in M.Full.__init__.__code__.co_varnames else M.Full(numpy.eye(d) + 0.25 * numpy.ones((d, d)))}[mk]()
+        if mass is not None and mass_history == "used-by-another-sampler":
+            # the mass matrix object has already served another sampler (other seed, other target)
+            with contextlib.redirect_stdout(io.StringIO()), contextlib.redirect_stderr(io.StringIO()), numpy.errstate(all="ignore"):
+                S.HMC(seed=987).sample(os.path.join(wd, "other_" + tag + ".h5"), D.Normal(numpy.zeros((d, 1)), numpy.ones((d, 1))), proposals=5, mass_matrix=mass,
+                                       stepsize=0.2, amount_of_steps=2, overwrite_existing_file=True, disable_progressbar=True)
         kw.update(stepsize=cfg["stepsize"], amount_of_steps=cfg["steps"], mass_matrix=mass, integrator=cfg["integrator"] if not visual else "lf",
                   randomize_stepsize=cfg["randomize"])
     else:
@@ -301,6 +311,9 @@ def run(tier, seed):
             variants.append(("progress-bar", dict(progressbar=True)))
             variants.append(("slow-write-clock", dict(clock=ScriptClock(50.0))))
             variants.append(("fast-write-clock", dict(clock=ScriptClock(1e-4))))
+            if cfg["kind"] == "hmc" and cfg["mass"] != "none":
+                variants.append(("mass-matrix-used-by-another-sampler", dict(mass_history="used-by-another-sampler")))
+                variants.append(("mass-matrix-with-its-own-generator", dict(mass_history="own-generator")))
             if cfg["d"] >= 2 and i % 3 == 0 and (cfg["kind"] == "rwmh" or cfg["integrator"] == "lf"):
                 variants.append(("visual-plain", dict(visual="plain")))
                 variants.append(("visual-animated", dict(visual="animate")))
@@ -347,7 +360,7 @@ def run(tier, seed):
     return {
         "evaluations": dist["runs"] + dist["generate_checks"], "distinct_nontrivial": len(seen),
         "rule": "seeded HMC (lf/3s/4s, Unit/Diagonal/Full/default mass, autotuning on/off) and RWMH runs on 7 target kinds; every configuration is re-run under: reseeded and "
-                "consumed global numpy stream, unrelated library activity, NPY back end, diagnostic mode, progress bar, slow and fast write-buffer clocks, visual samplers "
+                "consumed global numpy stream, unrelated library activity, NPY back end, diagnostic mode, progress bar, slow and fast write-buffer clocks, a mass matrix object that already served another sampler or was built with its own generator, visual samplers "
                 "with and without animation; doubled proposal count (prefix); seed+1 (must differ); static effect scan of all of hmclab",
         "samples": samples, "violations": violations,
         "traces_validated_against_impl": dist["comparisons"],
